@@ -24,12 +24,27 @@ theorem Inv.ret {cfg : Cfg} {s : State} (hi : Inv cfg s) (t : Tid) (rest : List 
   exact hi.build hx t (deliverStack rest res) [ev] rfl rfl hi.chain ((hrest.deliver hd hj).ext hx)
     hi.wip (by intro e he; simp at he; subst he; exact hev) hi.pend
 
-/-- the thread panics -/
+theorem justified_err {cfg : Cfg} {c : Key → Option Val} {o : Obj} {tp : Ty} {e : Err} :
+    Justified cfg c o tp (.err e) := by
+  unfold Justified; split <;> simp_all
+
+/-- the thread panics: the markers of the exclusive owners on its stack are released -/
 theorem Inv.crash {cfg : Cfg} {s : State} (hi : Inv cfg s) (t : Tid) (ev : Event)
     (hev : EvOK cfg s.cache ev) : Inv cfg (CONC.crash s t ev) := by
-  have hx : Ext s (CONC.crash s t ev) := Ext.of_eq rfl rfl rfl
-  exact hi.build hx t [.dead] [ev] rfl rfl hi.chain ⟨trivial, trivial, trivial⟩ hi.wip
-    (by intro e he; simp at he; subst he; exact hev) hi.pend
+  have hx : Ext s (CONC.crash s t ev) :=
+    ⟨by simp; exact CacheLe.refl _, by simp, fun q _ => by simp [releaseOwned_key]⟩
+  refine hi.build hx t [.dead] [ev] (crash_thr ..) (by simp) (by simp; exact hi.chain)
+    ⟨trivial, trivial, trivial⟩ ?_ (by intro e he; simp at he; subst he; simpa using hev) ?_
+  · intro k p h
+    simp only [crash_wip] at h
+    have := hi.wip k p (releaseOwned_wip_sub _ _ _ _ h)
+    exact ⟨by simp; exact this.1, by simp [releaseOwned_key]; exact this.2⟩
+  · intro p res h
+    simp only [crash_pend] at h
+    simp only [crash_pend, crash_cache, releaseOwned_key]
+    rcases releaseOwned_out _ _ _ _ h with h1 | h1
+    · exact hi.pend p res h1
+    · subst h1; exact justified_err
 
 /-- the cache grows, keeping the chain invariant -/
 theorem Inv.withCache {cfg : Cfg} {s : State} (hi : Inv cfg s) (c' : Key → Option Val)
@@ -38,10 +53,6 @@ theorem Inv.withCache {cfg : Cfg} {s : State} (hi : Inv cfg s) (c' : Key → Opt
   refine ⟨hc, fun t => (hi.stacks t).ext hx, hi.wip, fun e he => (hi.hist e he).mono hle, ?_⟩
   intro p res h
   exact (hi.pend p res h).mono hle
-
-theorem justified_err {cfg : Cfg} {c : Key → Option Val} {o : Obj} {tp : Ty} {e : Err} :
-    Justified cfg c o tp (.err e) := by
-  unfold Justified; split <;> simp_all
 
 theorem justified_panic {cfg : Cfg} {c : Key → Option Val} {o : Obj} {tp : Ty} :
     Justified cfg c o tp .panic := by
